@@ -306,6 +306,40 @@ func c09Oracle(info *runInfo, res *verifsim.Result) {
 		}
 	}
 
+	// Nor may an invalid message set off an answer to somebody else: at no point
+	// of a connection's life have more unicast RAs been sent to a host than valid
+	// solicitations from it had been received on that connection by then.
+	if !monitor {
+		for _, g := range h.gens {
+			if g.ifn != ifn {
+				continue
+			}
+			sent := map[string]int{}
+			for _, w := range g.writes {
+				if w.mc() {
+					continue
+				}
+				d := w.dst.String()
+				sent[d]++
+				asked, lastInvalid := 0, (*rx)(nil)
+				for _, r := range g.rxs {
+					if r.seq > w.seq {
+						break
+					}
+					if _, ok := r.msg.(*ndp.RouterSolicitation); ok && r.hop == 255 && r.src == w.dst {
+						asked++
+					} else if isInvalid(r, monitor) {
+						lastInvalid = r
+					}
+				}
+				if sent[d] > asked && lastInvalid != nil {
+					res.Violate("C09.silent", "answered-other", "%s gen %d: RA #%d to %s at %s is the %d. sent to that host, which had sent %d valid solicitation(s) by then; the last invalid message before it (%s from %s, hop limit %d) arrived at %s", ifn, g.gen, w.seq, d, ms(w.t), sent[d], asked, lastInvalid.msg.Type(), lastInvalid.src, lastInvalid.hop, ms(lastInvalid.t))
+					break
+				}
+			}
+		}
+	}
+
 	// Counted, by type.
 	got := map[string]int64{}
 	for i := range h.ev {
